@@ -11,13 +11,13 @@ PROPS["C18"]["rule"] += "; finalizer families: every 25th finite / 150th valid h
 for _p in ("C08", "C09"):
     PROPS[_p]["rule"] += ("; explicit (manual) IDs are spelled nine ways - opaque names, or decimals that look like generated IDs: counting from 0 / "
                           "from an offset, decreasing, out of order within blocks, shuffled, with gaps, zero-padded, mixed with names - in the "
-                          "random histories and in the exhaustive ones below the maximal length; replays also present never-issued numerals "
+                          "random histories and in the exhaustive ones up to length 3; replays also present never-issued numerals "
                           "inside the range of the issued ones and right after it; directed sweep: every arrangement of 2-4 distinct numbers "
                           "out of six put with explicit IDs, then every number of the range presented")
 
 # round 7: long backlogs
 for _p in ("C09", "C18"):
-    PROPS[_p]["rule"] += ("; directed long backlogs: a burst of 300 / 1000 (thorough: 2000) events, a pause longer than the TTL, then one Put whose "
+    PROPS[_p]["rule"] += ("; directed long backlogs: a burst of 300 / 1000 events, a pause longer than the TTL, then one Put whose "
                           "collection is due (all expired, or all but five) or an explicit GC(), then resumptions and Puts while the ring "
                           "shrinks; all of them also in the finalizer family")
 
@@ -26,7 +26,7 @@ for _p in ("C09", "C18"):
     PROPS[_p]["level_text"] += (" The histories of the model, of the specification and of the theorems (universally quantified over them) contain, "
                                 "next to Put / Replay / GC, assignments to the exported field GCInterval between two operations (VSetGCI): the "
                                 "interval is part of the state and shouldGC reads the current value at every Put, as in replay.go.")
-    PROPS[_p]["rule"] += ("; operation 'GCInterval := g' (lowered, raised, switched off) in the exhaustive alphabet, in the random histories and in a "
+    PROPS[_p]["rule"] += ("; operation 'GCInterval := g' (lowered, raised, switched off) in the exhaustive alphabet (up to length 3), in the random histories and in a "
                           "directed sweep: from every interval to every interval - before the first Put, after two Puts, after a Put-triggered "
                           "or an explicit collection - then pauses of every relevant length and Puts")
 
